@@ -29,9 +29,18 @@ RULE = ("generated signatures (positional-only, positional-or-keyword, *args, ke
         "each entry of what it decorates, nested in decoration order, and the outcome object must pass through unchanged. Between "
         "decorating and calling, the default logger may be replaced (eliot.testing.swap_logger with a MemoryLogger or a minimal "
         "ILogger, or a unittest method under @capture_logging, optionally inside a start_action of the test): the call's actions must "
-        "arrive, complete and in order, at the default logger in force when the call is made and nowhere else")
+        "arrive, complete and in order, at the default logger in force when the call is made and nowhere else. "
+        "Part 'startup': multi-step histories, each in a pristine forked process that has never added a destination and whose default "
+        "logger is the real eliot.Logger: 1-5 calls of 1-3 log_call-decorated functions / methods (returning, raising, calling other "
+        "decorated functions whose errors they catch or let through, logging messages and starting actions in their bodies, optionally "
+        "inside a start_action of the application), then the first add_destinations (between two calls, or made by the body of a "
+        "decorated call such as a logged main() that sets up logging), then 0-3 more calls. Everything logged before that first "
+        "add_destinations reaches its destinations afterwards (eliot buffers start-up messages), so every call - before, across or "
+        "after it - must show exactly one action with the start fields and result / exception demanded above, what its body logged "
+        "must be children of that action, and results / exception objects must be those of the undecorated function")
 ASSUMPTIONS = ["argument values are JSON-native so that tape copies compare by equality"]
 BATCH = 250
+ENABLE_STARTUP = True  # part 'startup' (decorated calls before the first add_destinations of a process)
 
 ORDINARY = ["a", "b", "c", "x", "y", "key", "value", "n", "m", "p", "q2", "item"]
 SPECIAL = ["logger", "action_type", "_serializers", "fields", "self", "task_uuid", "task_level", "timestamp", "action_status",
@@ -44,7 +53,11 @@ META = ("task_uuid", "task_level", "timestamp", "action_type", "action_status")
 
 def plan(tier, seed):
     n = 40000 if tier == "quick" else 400000
-    return [{"seed": seed, "lo": i, "hi": min(n, i + BATCH)} for i in range(0, n, BATCH)]
+    specs = [{"seed": seed, "lo": i, "hi": min(n, i + BATCH)} for i in range(0, n, BATCH)]
+    if ENABLE_STARTUP:
+        ns = 1200 if tier == "quick" else 12000
+        specs += [{"part": "startup", "seed": seed, "lo": i, "hi": min(ns, i + 40)} for i in range(0, ns, 40)]
+    return specs
 
 
 def gen_default(rng):
@@ -837,10 +850,441 @@ def layers(seed, i, res, tape):
                                              "options": {str(k): v for k, v in layer_opts.items()}, "clause": clause}})
 
 
+# ---------------------------------------------------------------------------------------------------------------------------
+# part 'startup': decorated calls made before (and across, and after) the first add_destinations of a process
+
+
+def gen_startup_history(rng):
+    """1-3 decorated functions / methods; 1-5 top-level calls, the first add_destinations, 0-3 more calls. A call is a tree: the
+    body logs messages, starts actions, calls other decorated functions (catching their UserError or not), then returns / raises."""
+    nf = rng.randint(1, 3)
+    fns = []
+    for j in range(nf):
+        sig = gen_plain_signature(rng)
+        names = all_names(sig)
+        opts = {}
+        if rng.random() < 0.4:
+            opts["action_type"] = "startup%d:type" % j
+        if rng.random() < 0.35 and names:
+            opts["include_args"] = rng.sample(names, rng.randint(0, len(names)))
+        if rng.random() < 0.3:
+            opts["include_result"] = False
+        fns.append({"sig": sig, "flavour": rng.choice(["function", "function", "method"]), "opts": opts})
+    counter = [0]
+
+    def node(depth):
+        j = rng.randrange(nf)
+        args, kwargs = gen_args(rng, fns[j]["sig"], True)
+        nd = {"id": counter[0], "fn": j, "args": args, "kwargs": kwargs, "steps": [], "depth": depth,
+              "plan": rng.choice(["return", "return", "return", "return", "raise", "raise", "raise_base"])}
+        counter[0] += 1
+        for _ in range(rng.choice([0, 0, 1, 1, 2, 3])):
+            r = rng.random()
+            if depth < 2 and r < 0.4:
+                nd["steps"].append(["call", node(depth + 1), rng.random() < 0.5])
+            elif r < 0.55:
+                nd["steps"].append(["action"])
+            else:
+                nd["steps"].append(["msg", rng.choice(["log_message", "Message.log"])])
+        return nd
+    nbefore = rng.randint(1, 5)
+    nafter = rng.choice([0, 1, 1, 2, 3])
+    add_in_body = rng.random() < 0.3
+    if add_in_body and nafter == 0:
+        nafter = 1
+    calls = [{"node": node(0), "parent": rng.random() < 0.2} for _ in range(nbefore + nafter)]
+    if add_in_body:
+        # the first add_destinations is made by the body of a decorated call (a logged main() / setup function)
+        nodes = []
+
+        def collect(nd):
+            nodes.append(nd)
+            for s in nd["steps"]:
+                if s[0] == "call":
+                    collect(s[1])
+        collect(calls[nbefore]["node"])
+        nd = rng.choice(nodes)
+        nd["steps"].insert(rng.randint(0, len(nd["steps"])), ["add"])
+    return {"fns": fns, "calls": calls, "add_after": nbefore, "add_in_body": add_in_body, "prelude": rng.random() < 0.75,
+            "with_file": rng.random() < 0.4}
+
+
+def _show_fn(hist, j):
+    f = hist["fns"][j]
+    return "%s fn%d(%s) log_call options %s" % (f["flavour"], j, render_params(f["sig"], "self" if f["flavour"] == "method" else None), f["opts"] or "none")
+
+
+def _show_node(node):
+    steps = []
+    for s in node["steps"]:
+        if s[0] == "call":
+            steps.append("%s <%s>" % ("call, UserError caught:" if s[2] else "call:", _show_node(s[1])))
+        elif s[0] == "msg":
+            steps.append(s[1])
+        elif s[0] == "action":
+            steps.append("start_action")
+        else:
+            steps.append("add_destinations")
+    return "fn%d(*%r, **%r) body=[%s] then %s" % (node["fn"], node["args"], node["kwargs"], "; ".join(steps), node["plan"])
+
+
+def _shape(node):
+    return [node["fn"], node["plan"], [[s[0]] + ([_shape(s[1]), s[2]] if s[0] == "call" else []) for s in node["steps"]]]
+
+
+class _StartupRun(object):
+    """One execution of a history's functions: decorated (bodies log through eliot) or undecorated (the reference: never touches eliot)."""
+
+    def __init__(self, hist, decorated, do_add=None, added=None):
+        self.hist = hist
+        self.decorated = decorated
+        self.do_add = do_add
+        self.added = added or (lambda: False)
+        self.rec = {}       # node id -> what the body saw
+        self.pending = None
+        self.extra = 0
+        self.problems = []  # (clause, text)
+        self.body_messages_before_add = 0
+        self.fns = [self.build(j, f) for j, f in enumerate(hist["fns"])]
+
+    def build(self, j, f):
+        if self.decorated:
+            decorate = (lambda fn: log_call(**f["opts"])(fn)) if f["opts"] else log_call
+        else:
+            decorate = lambda fn: fn
+        ns = {"__hook__": lambda loc: self.hook(j, loc), "__decorate__": decorate, "__name__": "vf.generated18"}
+        if f["flavour"] == "function":
+            exec('@__decorate__\ndef fn%d(%s):\n    "doc of target"\n    return __hook__(dict(locals()))\n' % (j, render_params(f["sig"])), ns)
+            return ns["fn%d" % j]
+        exec('class Klass%d(object):\n    @__decorate__\n    def fn%d(%s):\n        "doc of target"\n        return __hook__(dict(locals()))\n'
+             % (j, j, render_params(f["sig"], "self")), ns)
+        return getattr(ns["Klass%d" % j](), "fn%d" % j)
+
+    def call(self, node):
+        import copy
+        self.pending = node
+        return self.fns[node["fn"]](*copy.deepcopy(node["args"]), **copy.deepcopy(node["kwargs"]))
+
+    def top(self, c):
+        import eliot
+        try:
+            if c["parent"] and self.decorated:
+                # the application's own action is current around the call
+                with eliot.start_action(action_type="c18:parent"):
+                    return ("ret", self.call(c["node"]))
+            return ("ret", self.call(c["node"]))
+        except BaseException as e:
+            return ("raise", e)
+
+    def hook(self, j, loc):
+        node, self.pending = self.pending, None
+        if node is None or node["fn"] != j:
+            self.extra += 1
+            return ("R", "a run of the body that nobody asked for")
+        rec = self.rec[node["id"]] = {"bound": {k: v for k, v in loc.items() if k != "self"}, "started": 0, "out": None,
+                                      "entered_before_add": not self.added(), "left_before_add": None}
+        try:
+            for k, step in enumerate(node["steps"]):
+                rec["started"] = k + 1
+                self.step(node, k, step)
+            if node["plan"] == "raise":
+                raise excs.UserError("body failure in call %d" % node["id"])
+            if node["plan"] == "raise_base":
+                raise KeyboardInterrupt("body interrupt in call %d" % node["id"])
+        except BaseException as e:
+            rec["out"] = ("raise", e)
+            rec["left_before_add"] = not self.added()
+            raise
+        result = ("R", node["id"], sorted((k, repr(v)) for k, v in rec["bound"].items()))
+        rec["out"] = ("ret", result)
+        rec["left_before_add"] = not self.added()
+        return result
+
+    def step(self, node, k, step):
+        import eliot
+        if step[0] == "call":
+            child = step[1]
+            try:
+                got = self.call(child)
+            except BaseException as e:
+                crec = self.rec.get(child["id"])
+                if crec is None or crec["out"] is None or crec["out"][1] is not e:
+                    self.problems.append(("unexpected-raise", "the nested call %s raised %r, its body %s" % (
+                        _show_node(child), e, "was never entered" if crec is None or crec["out"] is None else "%s %r" % (
+                            {"ret": "returned", "raise": "raised"}[crec["out"][0]], crec["out"][1]))))
+                if isinstance(e, excs.UserError) and step[2]:
+                    return
+                raise
+            crec = self.rec.get(child["id"])
+            if crec is None or crec["out"] is None or crec["out"][1] is not got:
+                self.problems.append(("result", "the nested call %s returned %r, not the object its body %s" % (
+                    _show_node(child), got, "returned (it was never entered)" if crec is None or crec["out"] is None else "%s: %r" % (
+                        {"ret": "returned", "raise": "raised"}[crec["out"][0]], crec["out"][1]))))
+            return
+        if not self.decorated:
+            return
+        if step[0] == "add":
+            self.do_add()
+            return
+        if not self.added():
+            self.body_messages_before_add += 1
+        if step[0] == "msg":
+            if step[1] == "log_message":
+                eliot.log_message(message_type="c18:body", c18_node=node["id"], c18_k=k)
+            else:
+                eliot.Message.log(message_type="c18:body", c18_node=node["id"], c18_k=k)
+        else:
+            with eliot.start_action(action_type="c18:body_action", c18_node=node["id"], c18_k=k):
+                pass
+
+
+def _startup_segment(hist, run, c, out):
+    """The messages the property demands for one top-level call, from what the bodies saw: each entry names the entry of the action
+    it must be a child of."""
+    seg = []
+    if c["parent"]:
+        seg.append({"kind": "pstart", "parent": None, "sum": ("c18:parent", "started", None, None)})
+
+    def walk(node, parent):
+        rec = run.rec[node["id"]]
+        f = hist["fns"][node["fn"]]
+        typ = f["opts"].get("action_type") or "vf.generated18.%sfn%d" % ("Klass%d." % node["fn"] if f["flavour"] == "method" else "", node["fn"])
+        me = len(seg)
+        seg.append({"kind": "start", "node": node, "parent": parent, "sum": (typ, "started", None, None)})
+        for k in range(rec["started"]):
+            step = node["steps"][k]
+            if step[0] == "msg":
+                seg.append({"kind": "msg", "node": node, "parent": me, "sum": ("c18:body", None, node["id"], k)})
+            elif step[0] == "action":
+                seg.append({"kind": "astart", "node": node, "parent": me, "sum": ("c18:body_action", "started", node["id"], k)})
+                seg.append({"kind": "aend", "node": node, "parent": len(seg) - 1, "sum": ("c18:body_action", "succeeded", None, None)})
+            elif step[0] == "call" and step[1]["id"] in run.rec:
+                walk(step[1], me)
+        seg.append({"kind": "end", "node": node, "parent": me, "sum": (typ, {"ret": "succeeded", "raise": "failed"}[rec["out"][0]], None, None)})
+    walk(c["node"], 0 if c["parent"] else None)
+    if c["parent"]:
+        seg.append({"kind": "pend", "parent": 0, "sum": ("c18:parent", {"ret": "succeeded", "raise": "failed"}[out[0]], None, None)})
+    return seg
+
+
+def startup_child(hist, i):
+    """Runs in a fresh fork that has never added a destination; judges there (object identities) and returns a result dict."""
+    import io
+    import eliot
+    sub = {"evals": 0, "nontrivial": [], "counters": {}, "violations": [], "sample": None}
+    c = sub["counters"]
+    problems = []  # (clause, text)
+    calls = hist["calls"]
+    try:
+        ref = _StartupRun(hist, False)
+    except SyntaxError:
+        return sub
+    ref_outs = [ref.top(x) for x in calls]
+    tape = Tape()
+    rec = Recorder(tape, "rec", deep=False)
+    state = {"added": False, "at_add": None}
+
+    def do_add():
+        if state["added"]:
+            return
+        state["added"] = True
+        if hist["with_file"]:
+            add_destinations(rec, eliot.FileDestination(file=io.BytesIO()))
+        else:
+            add_destinations(rec)
+        state["at_add"] = [e["m"].get("message_type") for e in tape.entries if e["k"] == "msg"]
+    # ---- the application: decorate at import time, log, call, set up logging at some point, call
+    run = None
+    try:
+        run = _StartupRun(hist, True, do_add, lambda: state["added"])
+    except BaseException as e:
+        problems.append(("decorate", "decorating raised %r" % (e,)))
+    outs, phases = [], []
+    if run is not None:
+        if hist["prelude"]:
+            eliot.log_message(message_type="c18:prelude")
+        for n, x in enumerate(calls):
+            if n == hist["add_after"] and not hist["add_in_body"]:
+                do_add()
+            was = state["added"]
+            outs.append(run.top(x))
+            phases.append("after" if was else "across" if state["added"] else "before")
+            if n == hist["add_after"]:
+                do_add()  # (the body that was to make the first add_destinations never got that far)
+        do_add()
+    fnlist = "; ".join(_show_fn(hist, j) for j in range(len(hist["fns"])))
+
+    def desc(n):
+        return "call %d of %d, made %s the first add_destinations of the process%s: %s [%s]" % (
+            n + 1, len(calls), {"before": "before", "after": "after", "across": "across (its body makes)"}[phases[n]],
+            ", inside an action of the caller" if calls[n]["parent"] else "", _show_node(calls[n]["node"]), fnlist)
+    judged = run is not None
+    # ---- transparency: same outcome as the undecorated functions, outcome objects are the bodies' own
+    if judged:
+        problems.extend(run.problems)
+        if run.extra:
+            problems.append(("result", "function bodies ran %d times more than they were called [%s]" % (run.extra, fnlist)))
+        for n, x in enumerate(calls):
+            ou, od = ref_outs[n], outs[n]
+            rrec = run.rec.get(x["node"]["id"])
+            if od[0] == "raise" and (rrec is None or rrec["out"] is None or od[1] is not rrec["out"][1]):
+                problems.append(("unexpected-raise", "decorated call raised %r where the function %s: %s" % (
+                    od[1], "returns" if ou[0] == "ret" else "raises " + repr(ou[1]), desc(n))))
+            elif ou[0] != od[0]:
+                problems.append(("acceptance", "undecorated call -> %s, decorated call -> %s (%r): %s" % (ou[0], od[0], od[1], desc(n))))
+            elif od[0] == "ret" and (rrec is None or rrec["out"] is None or od[1] is not rrec["out"][1] or od[1] != ou[1]):
+                problems.append(("result", "decorated call returned %r, not the body's result object (undecorated: %r): %s" % (od[1], ou[1], desc(n))))
+            elif od[0] == "raise" and type(od[1]) is not type(ou[1]):
+                problems.append(("unexpected-raise", "decorated call raised %r, undecorated %r: %s" % (od[1], ou[1], desc(n))))
+        skel = lambda r: sorted((k, v["started"], v["out"] and v["out"][0], v["out"] and (v["out"][1] if v["out"][0] == "ret" else type(v["out"][1]).__name__))
+                                for k, v in r.rec.items())
+        if not problems and skel(ref) != skel(run):
+            problems.append(("result", "the function bodies ran differently: undecorated (call id, body steps begun, outcome) %r, decorated %r [%s; calls %s]" % (
+                skel(ref), skel(run), fnlist, [_show_node(x["node"]) for x in calls])))
+        judged = not problems
+    # ---- the logged actions, as the destinations of the first add_destinations received them
+    msgs = [e["m"] for e in tape.entries if e["k"] == "msg" and e["m"].get("message_type") != "eliot:destination_failure"]
+    in_startup_phase = True
+    if run is not None and hist["prelude"]:
+        if state["at_add"] and state["at_add"][0] == "c18:prelude" and msgs and msgs[0].get("message_type") == "c18:prelude":
+            c["startup_histories_replayed_from_buffer"] = 1
+            msgs = msgs[1:]
+        else:
+            # a plain message logged first did not come out of a start-up buffer: this process was not in its start-up phase (not judged)
+            c["startup_histories_not_in_startup_phase"] = 1
+            in_startup_phase = False
+    summ = lambda m: (m.get("action_type") or m.get("message_type"), m.get("action_status"), m.get("c18_node"), m.get("c18_k"))
+    pos = 0
+    for n, x in enumerate(calls if judged and in_startup_phase else ()):
+        seg = _startup_segment(hist, run, x, outs[n])
+        got = msgs[pos: pos + len(seg)]
+        if [summ(m) for m in got] != [s["sum"] for s in seg]:
+            rest = [summ(m)[:2] for m in msgs[pos: pos + len(seg) + 3]]
+            problems.append(("actions", "every decorated call logs exactly one action, and messages logged before the first add_destinations are "
+                             "delivered to its destinations: expected (type, status) %r, the destinations received %r at that place of their log: %s"
+                             % ([s["sum"][:2] for s in seg], rest, desc(n))))
+            break
+        pos += len(seg)
+        for s, m in zip(seg, got):
+            node = s.get("node")
+            if s["parent"] is not None:
+                a = got[s["parent"]]
+                prefix = a["task_level"][:-1]
+                lvl = m["task_level"]
+                ok = m["task_uuid"] == a["task_uuid"] and (
+                    (lvl[:-2] == prefix and len(lvl) == len(prefix) + 2) if s["kind"] in ("start", "astart") else lvl[:-1] == prefix)
+                if not ok:
+                    what = {"start": "the action of the nested decorated call", "astart": "an action started in the body", "aend": "the end of an action started in the body",
+                            "msg": "a message logged in the body", "end": "the end message of the call's action", "pend": "the end of the caller's action"}[s["kind"]]
+                    problems.append(("child", "%s %r is at task %s level %s: not a child of the action %r (task %s, start at level %s) it was logged in: %s" % (
+                        what, summ(m)[0], m["task_uuid"][:8], lvl, summ(a)[0], a["task_uuid"][:8], a["task_level"], desc(n))))
+                    break
+            if s["kind"] == "start":
+                f = hist["fns"][node["fn"]]
+                want = dict(ref.rec[node["id"]]["bound"])  # as Python binds them: what the undecorated function saw on entry
+                if "include_args" in f["opts"]:
+                    want = {k: want[k] for k in f["opts"]["include_args"]}
+                have = {k: v for k, v in m.items() if k not in META}
+                if set(have) != set(want) or not all(same(have[k], want[k]) for k in want):
+                    problems.append(("startfield", "start message of %s has fields %r, Python bound %r: %s" % (s["sum"][0], have, want, desc(n))))
+                    break
+            elif s["kind"] == "end":
+                f = hist["fns"][node["fn"]]
+                o = run.rec[node["id"]]["out"]
+                have = {k: v for k, v in m.items() if k not in META}
+                if o[0] == "ret":
+                    if f["opts"].get("include_result", True):
+                        if set(have) != {"result"} or not same(have["result"], o[1]):
+                            problems.append(("resultfield", "end message of %s has fields %r, the call returned %r: %s" % (s["sum"][0], have, o[1], desc(n))))
+                            break
+                    elif have:
+                        problems.append(("resultfield", "include_result=False, end message of %s has fields %r: %s" % (s["sum"][0], have, desc(n))))
+                        break
+                elif m.get("exception") != excs.qualname(type(o[1])):
+                    problems.append(("actions", "end message of %s names exception %r, the call raised %r: %s" % (s["sum"][0], m.get("exception"), o[1], desc(n))))
+                    break
+        if problems:
+            break
+    else:
+        if judged and in_startup_phase and pos != len(msgs):
+            problems.append(("actions", "the destinations received %d messages %r that no call accounts for [%s; calls %s]" % (
+                len(msgs) - pos, [summ(m)[:2] for m in msgs[pos: pos + 8]], fnlist, [_show_node(x["node"]) for x in calls])))
+    # ---- accounting
+    c["startup_histories"] = 1
+    if run is not None:
+        recs = run.rec
+        depth = {}
+
+        def depths(nd):
+            depth[nd["id"]] = nd["depth"]
+            for s in nd["steps"]:
+                if s[0] == "call":
+                    depths(s[1])
+        for x in calls:
+            depths(x["node"])
+        sub["evals"] += len(recs)
+        c["startup_calls_compared"] = len(recs)
+        before = [k for k, v in recs.items() if v["entered_before_add"]]
+        c["startup_calls_before_first_add"] = sum(1 for k in before if recs[k]["left_before_add"])
+        c["startup_calls_across_first_add"] = sum(1 for k in before if recs[k]["left_before_add"] is False)
+        c["startup_calls_after_first_add"] = len(recs) - len(before)
+        c["startup_nested_calls_before_first_add"] = sum(1 for k in before if depth[k] > 0)
+        c["startup_raising_calls_before_first_add"] = sum(1 for k in before if recs[k]["out"] and recs[k]["out"][0] == "raise")
+        c["startup_body_messages_before_first_add"] = run.body_messages_before_add
+        if hist["add_in_body"] and c["startup_calls_across_first_add"]:
+            c["startup_first_add_made_inside_a_decorated_call"] = 1
+        c["startup_messages_judged"] = pos
+    sub["nontrivial"].append(h(["startup", [(f["flavour"], render_params(f["sig"]), sorted(f["opts"].items())) for f in hist["fns"]],
+                                [[_shape(x["node"]), x["parent"]] for x in calls], hist["add_after"], hist["add_in_body"], hist["prelude"]]))
+    sub["sample"] = {"part": "startup", "functions": [_show_fn(hist, j) for j in range(len(hist["fns"]))],
+                     "calls_before_first_add_destinations": [_show_node(x["node"]) for x in calls[:hist["add_after"]]],
+                     "calls_after": [_show_node(x["node"]) for x in calls[hist["add_after"]:]],
+                     "first_add_destinations_made_by_a_body": hist["add_in_body"], "messages_received": len(msgs)}
+    seen = set()
+    for clause, text in problems:
+        if clause in seen:
+            continue
+        seen.add(clause)
+        sub["violations"].append({"msg": "[startup:%s] %s" % (clause, text), "mech": None,
+                                  "detail": {"case": i, "part": "startup", "clause": clause, "functions": [_show_fn(hist, j) for j in range(len(hist["fns"]))],
+                                             "calls": [_show_node(x["node"]) for x in calls], "first_add_destinations_after_call": hist["add_after"],
+                                             "first_add_destinations_made_by_a_body": hist["add_in_body"],
+                                             "received": [list(summ(m)[:2]) + [m.get("task_uuid", "")[:6], m.get("task_level")] for m in msgs[:40]]}})
+    return sub
+
+
+def part_startup(spec, res):
+    """Every history in a fresh fork of this process, which (like its parent, the runner) has never added a destination."""
+    from vf.forkrun import call_in_fork
+    for i in range(spec["lo"], spec["hi"]):
+        rng = random.Random("%s:C18:startup:%d" % (spec["seed"], i))
+        hist = gen_startup_history(rng)
+        kind, sub = call_in_fork(lambda: startup_child(hist, i), timeout=120)
+        if kind == "timeout":
+            res["inconclusive"] = "start-up history exceeded its watchdog"
+            continue
+        if kind != "ok":
+            res["evals"] += 1
+            res["violations"].append({"msg": "[startup] running the history failed: %s" % kind, "mech": None,
+                                      "detail": {"part": "startup", "case": i, "output": str(sub)[-1500:]}})
+            continue
+        res["evals"] += sub["evals"]
+        res["nontrivial"].extend(sub["nontrivial"])
+        for k, v in sub["counters"].items():
+            res["counters"][k] = res["counters"].get(k, 0) + v
+        if len(res["violations"]) < 5:
+            res["violations"].extend(sub["violations"])
+        if res["sample"] is None and sub.get("sample"):
+            res["sample"] = sub["sample"]
+
+
 def run_case(spec):
     res = {"evals": 0, "nontrivial": [], "counters": {}, "violations": [], "sample": None, "sets": {"special_names_used": []}}
     import io
     from eliot import FileDestination
+    if spec.get("part") == "startup":
+        part_startup(spec, res)  # adds no destination in this process: every history runs in a fork of it
+        return res
     tape = Tape()
     rec = Recorder(tape, "rec", deep=False)
     filedest = FileDestination(file=io.BytesIO())  # a real JSON-encoding destination sees every argument and result too
@@ -863,4 +1307,12 @@ def finalize(agg, tier):
               "layers_calls_after_default_logger_replaced"):
         if not agg["counters"].get(k, 0):
             return "part 'layers' never reached: " + k
+    if ENABLE_STARTUP:
+        for k in ("startup_calls_before_first_add", "startup_histories_replayed_from_buffer", "startup_nested_calls_before_first_add",
+                  "startup_raising_calls_before_first_add", "startup_body_messages_before_first_add", "startup_calls_across_first_add",
+                  "startup_calls_after_first_add"):
+            if not agg["counters"].get(k, 0):
+                return "part 'startup' never reached: " + k
+        if agg["counters"].get("startup_histories_not_in_startup_phase", 0):
+            return "part 'startup': %d histories ran in a process that was not in its start-up phase" % agg["counters"]["startup_histories_not_in_startup_phase"]
     return None
